@@ -15,7 +15,7 @@ for f in sorted(glob.glob(os.path.join(VERIF, "seeded", "*", "meta.json"))):
             if l and not l.startswith("#") and len(l) > 30:
                 what = re.sub(r"\s+", " ", l)[:220]
                 break
-    rows.append((m["name"], m["breaks_property"], ", ".join(m.get("files_changed", [])), "yes" if m["verification"].get("confirmed") else "NO", ", ".join(m.get("caught_by", [])) or "**missed**", m.get("history", ""), what))
+    rows.append((m["name"], m["breaks_property"], ", ".join(m.get("files_changed", [])), "yes" if m["verification"].get("confirmed") else "NO", ("not counted (outside the property, see history)" if m.get("rejected") else (", ".join(m.get("caught_by", [])) or "**missed**")), m.get("history", ""), what))
 out = ["# Seeded changes", "",
        "Each change was produced by a fresh sub-agent that saw only the property text and a scratch worktree, compiles, keeps the 142 baseline tests green,",
        "and comes with a demonstration test that fails with the change and passes without (re-verified by tools/seed_verify.sh).",
@@ -28,7 +28,8 @@ if hist:
     out += ["", "## Strengthening history", ""]
     for r in hist:
         out.append(f"* **{r[0]}**: {r[5]}")
-caught = sum(1 for r in rows if r[4] != "**missed**")
-out += ["", f"{len(rows)} seeded changes, {caught} caught by at least one registered quick check."]
+rejected = sum(1 for r in rows if r[4].startswith("not counted"))
+caught = sum(1 for r in rows if r[4] != "**missed**" and not r[4].startswith("not counted"))
+out += ["", f"{len(rows)} stored changes: {len(rows) - rejected} seeded violations, {caught} of them caught by at least one registered quick check; {rejected} not counted (does not break the property as stated)."]
 open(os.path.join(VERIF, "seeded", "INDEX.md"), "w").write("\n".join(out) + "\n")
 print(out[-1])
